@@ -91,6 +91,16 @@ def showNrqOutcome (c : Caller) : String :=
 
 def stepRegistry (op : String) (args : List String) : Option String :=
   match op, args with
+  | "hrq", [kind, _timeout, _oneway] =>
+    -- HTTP client transport: no registry; the call either gets its response in time or the request
+    -- context's deadline ends it — the model's caller with a reader that delivers (early) or not.
+    let as : List Action := if kind == "early" then [.register 0, .readerLookup ⟨0, 1⟩, .readerSend, .recv 0, .unregister 0]
+      else [.register 0, .timeout 0, .unregister 0]
+    match run (init 1 false [0]) as with
+    | some s => match s.callers[0]? with
+      | some c => some ("outcome=" ++ (match c.pc with | .done (.ok _) => "ok" | .done .timedOut => "timedOut" | pc => showPc pc))
+      | none => none
+    | none => none
   | "nrq", [kind, _timeout, missed] => do
     let (as, freshIdx) ← nrqSchedule kind (missed == "1")
     let s ← run (init FV.Params.resultChanCapNats FV.Params.dispatchSendBlocking (List.range (freshIdx + 1))) as
